@@ -529,3 +529,112 @@ Definition src_fun (d : srcdata) : nat -> option Qc :=
   end.
 Definition sources_of (l : list srcdata) : sources :=
   fun i => match nth_error l i with Some d => src_fun d | None => fun _ => None end.
+
+(* ------------------------------------------- several uses of one filter object *)
+(* The Stream objects of a filter live across calls (a second call goes on reading
+   them where the first stopped).  The filter object itself is not changed by a call:
+   the variable-gain branch of __call__ works on "den = Poly(self.denpoly)", a shallow
+   copy that shares the coefficient Streams (repair 8d9dc85; before it "den[0] = 0"
+   deleted a0 from the filter's own denominator).  tv_loop_st / run_tv_st are tv_loop /
+   run_tv returning also the state of the iterators when the consumer stops. *)
+Fixpoint tv_loop_st (S : sources) (p : tprog) (bs az : list (nat * cx)) (fuel : nat)
+                    (s : st) (m d : env) : list event * st :=
+  match fuel with
+  | O => ([], s)
+  | Datatypes.S fuel' =>
+      match read_src S 0 s with
+      | (PVal x, s0, t0) =>
+          let d0 := upd d 0 x in
+          match eval_tterms S bs az (p_terms (tp_prog p)) s0 m d0 0 with
+          | (PVal acc, s1, t1) =>
+              let m0 := apply_gain (p_gain (tp_prog p)) acc in
+              let m' := upd m 0 m0 in
+              let '(tr, s2) := tv_loop_st S p bs az fuel' s1 (exec_shifts (p_mshift (tp_prog p)) m')
+                                          (exec_shifts (p_dshift (tp_prog p)) d0) in
+              (t0 ++ t1 ++ EvYield m0 :: tr, s2)
+          | (PEnd, s1, t1) => (t0 ++ t1 ++ [if tp_try p then EvStop else EvRaise XRuntime], s1)
+          | (PErr, s1, t1) => (t0 ++ t1 ++ [EvRaise XZeroDiv], s1)
+          end
+      | (_, s0, t0) => (t0 ++ [EvStop], s0)
+      end
+  end.
+
+Fixpoint zero_loop_st (S : sources) (z : Qc) (fuel : nat) (s : st) : list event * st :=
+  match fuel with
+  | O => ([], s)
+  | Datatypes.S fuel' =>
+      match read_src S 0 s with
+      | (PVal x, s0, t0) => let '(tr, s1) := zero_loop_st S z fuel' s0 in (t0 ++ EvYield z :: tr, s1)
+      | (_, s0, t0) => (t0 ++ [EvStop], s0)
+      end
+  end.
+
+Definition run_tv_st (S : sources) (g : tgen) (f : tfilt) (memory : list Qc) (zero : Qc)
+                     (fuel : nat) (s : st) : list event * st :=
+  match g with
+  | TZero z => zero_loop_st S z fuel s
+  | TGen p => tv_loop_st S p (stream_iters (t_num f)) (stream_iters (t_den f)) fuel s
+                         (unpack (p_mvars (tp_prog p)) memory empty_env)
+                         (assign_all (p_dvars (tp_prog p)) zero empty_env)
+  end.
+
+(* the filter object and the hub counter of the session *)
+Record fobj := FObj { o_f : tfilt; o_h : nat }.
+
+(* one __call__ on the object: (what the consumer sees, the object afterwards, the iterators afterwards) *)
+Definition call_obj (S : sources) (o : fobj) (s : st) (mem : memarg) (zero : Qc) (fuel : nat)
+  : tres * fobj * st :=
+  let f := o_f o in
+  if t_any_negative f then (RCall NonCausal, o, s)           (* refused before anything is touched *)
+  else
+    let run (f' : tfilt) (o' : fobj) :=
+      match tcodegen f' zero with
+      | Err e => (RCall e, o', s)
+      | Ok g => let '(tr, s') := run_tv_st S g f' (normalise_memory (t_mem_size f') zero mem) zero fuel s in
+                (RRun g tr, o', s')
+      end in
+    match t_getitem coef_alg (t_den f) 0 with
+    | CStr e0 =>
+        let h := o_h o in
+        let inv := XCS ODiv 1 e0 in
+        match divide_through coef_alg (Datatypes.S h) f (CStr (XTee h 2 0 inv)) (CStr (XTee h 2 1 inv)) with
+        | BErr e => (RBuild e, o, s)
+        | BOk f' h' => run f' (FObj f h')                      (* self keeps its Polys; new hubs *)
+        end
+    | CNum _ => run f o
+    end.
+
+(* z ** -k *)
+Definition z_pow_neg (k : nat) : tfilt := TF [(Z.of_nat k, CNum 1)] [(0%Z, CNum 1)].
+
+Inductive sstep :=
+| SCall (fuel : nat)                     (* out = filt(seq); take at most fuel items            *)
+| SShiftCall (k fuel : nat)              (* g = filt * z ** -k; out = g(seq); take ...          *)
+| SLook.                                 (* look at filt.numpoly / filt.denpoly                  *)
+
+Inductive sobs :=
+| SRes (r : tres)
+| SSeen (num den : list (Z * bool)).     (* (power, is a Stream) in dict order *)
+
+Definition look (d : tdata) : list (Z * bool) := map (fun kv => (fst kv, is_stream (snd kv))) d.
+
+Fixpoint session (S : sources) (steps : list sstep) (o : fobj) (s : st) (zero : Qc) : list sobs :=
+  match steps with
+  | [] => []
+  | SCall fuel :: r =>
+      let '(res, o', s') := call_obj S o s MNone zero fuel in SRes res :: session S r o' s' zero
+  | SShiftCall k fuel :: r =>
+      match fmul coef_alg (o_h o) (o_f o) (z_pow_neg k) with
+      | BErr e => SRes (RBuild e) :: session S r o s zero
+      | BOk g h1 =>
+          let '(res, og, s') := call_obj S (FObj g h1) s MNone zero fuel in
+          SRes res :: session S r (FObj (o_f o) (o_h og)) s' zero
+      end
+  | SLook :: r => SSeen (look (t_num (o_f o))) (look (t_den (o_f o))) :: session S r o s zero
+  end.
+
+Definition run_session (S : sources) (e : fexp) (steps : list sstep) (zero : Qc) : option (list sobs) :=
+  match build coef_alg e 0 with
+  | BErr _ => None
+  | BOk f h => Some (session S steps (FObj f h) st0 zero)
+  end.
